@@ -50,6 +50,7 @@ type c28E2ECall struct {
 	Reqs    []string `json:"reqs"`
 	Res     []string `json:"res,omitempty"`
 	Err     string   `json:"err,omitempty"`
+	Panic   string   `json:"panic,omitempty"`
 }
 
 func TestVerifC28Actor(t *testing.T) {
@@ -114,29 +115,37 @@ func TestVerifC28Actor(t *testing.T) {
 						msgs[j] = &testpb.Reply{Content: fmt.Sprintf("%s|%d", reqs[j], delay)}
 					}
 					call := c28E2ECall{Round: r, MaxIdle: maxIdle, T: k, Batch: batch, Reqs: reqs}
-					if batch {
-						resps, err := cl.RemoteBatchAsk(ctx, from, to, msgs, 50*time.Millisecond)
-						if err != nil {
-							call.Err = err.Error()
-						} else {
-							for _, x := range resps {
-								if rr, ok := x.(*testpb.Reply); ok {
-									call.Res = append(call.Res, rr.GetContent())
-								} else {
-									call.Res = append(call.Res, fmt.Sprintf("<%T>", x))
+					func() {
+						// a response that is not the caller's own can make the client index past its request list
+						defer func() {
+							if p := recover(); p != nil {
+								call.Panic = fmt.Sprint(p)
+							}
+						}()
+						if batch {
+							resps, err := cl.RemoteBatchAsk(ctx, from, to, msgs, 50*time.Millisecond)
+							if err != nil {
+								call.Err = err.Error()
+							} else {
+								for _, x := range resps {
+									if rr, ok := x.(*testpb.Reply); ok {
+										call.Res = append(call.Res, rr.GetContent())
+									} else {
+										call.Res = append(call.Res, fmt.Sprintf("<%T>", x))
+									}
 								}
 							}
-						}
-					} else {
-						resp, err := cl.RemoteAsk(ctx, from, to, msgs[0], 50*time.Millisecond)
-						if err != nil {
-							call.Err = err.Error()
-						} else if rr, ok := resp.(*testpb.Reply); ok {
-							call.Res = []string{rr.GetContent()}
 						} else {
-							call.Res = []string{fmt.Sprintf("<%T>", resp)}
+							resp, err := cl.RemoteAsk(ctx, from, to, msgs[0], 50*time.Millisecond)
+							if err != nil {
+								call.Err = err.Error()
+							} else if rr, ok := resp.(*testpb.Reply); ok {
+								call.Res = []string{rr.GetContent()}
+							} else {
+								call.Res = []string{fmt.Sprintf("<%T>", resp)}
+							}
 						}
-					}
+					}()
 					mu.Lock()
 					calls = append(calls, call)
 					mu.Unlock()
